@@ -103,6 +103,20 @@ for n in ns:
             chk.violation(f"{kind}:spec", f"ut.{kind}({n}) does not enumerate every pair exactly once",
                           {"n": n, "tx": tx, "rx": rx}, failing_input_found=True)
         enum_cases.append((kind, n, pairs))
+        # HISTORY: the arrays returned to one caller are that caller's own (e.g. shifted in place to one-based indices for
+        # an export); the next call with the same n must enumerate the pairs afresh
+        if n <= 12:
+            a_, b_ = fn(n)
+            try:
+                a_ += 1
+                b_[...] = 0
+            except (TypeError, ValueError):
+                pass                       # read-only or immutable results are fine too
+            tx2, rx2 = fn(n)
+            if [int(x) for x in tx2] != tx or [int(x) for x in rx2] != rx:
+                chk.violation(f"{kind}:history", f"ut.{kind}({n}) returns a different enumeration after the caller modified in place "
+                              "the arrays returned by an earlier call", {"n": n, "first": [tx, rx],
+                                                                          "second": [[int(x) for x in tx2], [int(x) for x in rx2]]}, True)
         evaluations += 1
         nontrivial.add((kind, n))
         chk.count(enum=kind)
